@@ -52,17 +52,34 @@ class Site:
             (f" (+{len(self.origins) - 1} more)" if len(self.origins) > 1 else "")
 
 
+class _TH:
+    def __init__(self, types, hooks):
+        self.types, self.hooks = types, hooks
+
+
 def fold_camel(hooks: HooksModule):
-    """E5-fold the package's attr-name -> wire-name helper out of _hooks.py."""
+    """attr-name -> wire-name as the package computes it.  First choice: E5-fold the helper `_to_camel_case` out of
+    _hooks.py (works for any name, also ones no class has).  If the helper was refactored away, fall back to what the
+    structure factory actually hands cattrs as `rename=` for each attribute (semantic folding of the factories)."""
     fn = hooks.functions.get("_register_custom_property_hooks")
-    if fn is None:
-        raise AnalysisError(f"{hooks.rel}: _register_custom_property_hooks not found")
     camel = None
-    for st in fn.body:
+    for st in ast.walk(hooks.tree):
         if isinstance(st, ast.FunctionDef) and st.name == "_to_camel_case":
             camel = st
-    if camel is None:
-        raise AnalysisError(f"{hooks.rel}: _to_camel_case not found")
+    if fn is None or camel is None:
+        from . import special
+        ff = special.fold_factories(_TH(hooks.types, hooks))
+        by_attr: dict[str, set] = {}
+        for (cname, attr), (rename, _omit) in ff.overrides["structure"].items():
+            by_attr.setdefault(attr, set()).add(rename)
+
+        def g(name: str) -> str:
+            vals = by_attr.get(name)
+            if not vals or len(vals) != 1 or not isinstance(next(iter(vals)), str):
+                raise AnalysisError(f"{hooks.rel}: no unique wire name for attribute {name!r} "
+                                    f"(the structure factory gives {sorted(map(repr, vals or []))})")
+            return next(iter(vals))
+        return g
     it = microeval.Interp(name=hooks.rel)
     cache: dict[str, str] = {}
 
